@@ -511,6 +511,12 @@ func c03RequestIn(c *core.Ctx, f *flow.Func, sc *c03scope, stores []*c03hdrStore
 	var storeBad ast.Node
 	hdrArgOK := true
 	for _, s := range stores {
+		if s.src != nil { // header function inlined: the clone's source
+			if !inAttr(s.src, "HTTPHeader") {
+				hdrArgOK = false
+			}
+			continue
+		}
 		if s.call == nil || len(s.call.Args) != 1 {
 			continue
 		}
@@ -701,8 +707,32 @@ func c03RequestIn(c *core.Ctx, f *flow.Func, sc *c03scope, stores []*c03hdrStore
 	c.Check(badHdr == nil, "R-C03-4", name+"|header stored on every successful exit", pos(c, stores[0].assign),
 		sprintf("%d successful exits, all after the Header store", nSucc),
 		"a successful exit is reachable without the stripped header having been stored: the outbound request carries no client headers", witness(badHdr)...)
+	storedHow := "the constructed request is stored to the context's outbound-request field on every successful exit"
+	if badStored != nil && storeBad == nil {
+		// other style: the builder hands the request back and its callers store it
+		returned := nSucc > 0
+		for _, ex := range res.Exits {
+			if !success(ex) {
+				continue
+			}
+			r := ex.Return
+			if r == nil || len(r.Results) < 1 {
+				returned = false
+				continue
+			}
+			if id, ok := ast.Unparen(r.Results[0]).(*ast.Ident); !ok || c03canon(f, c03obj(f, id)) != outVar {
+				returned = false
+			}
+		}
+		if returned {
+			if n, ok := c03callersStore(c, f, outField); ok {
+				badStored = nil
+				storedHow = sprintf("the constructed request is returned on every successful exit and each of the %d caller(s) stores it to the context's outbound-request field before going on", n)
+			}
+		}
+	}
 	c.Check(badStored == nil && storeBad == nil, "R-C03-4", name+"|built request is the one sent", pos(c, newReq),
-		"the constructed request is stored to serverPoolContext.stdReq on every successful exit",
+		storedHow,
 		"the request stored for sending is not the one that was constructed from the inbound request", witness(badStored)...)
 
 	// --- R-C03-5 decision table
@@ -793,6 +823,7 @@ func c03AddrClassifier(c *core.Ctx) {
 			var sv types.Object
 			type cand struct {
 				rs   ast.Stmt
+				coll ast.Expr
 				call *ast.CallExpr
 				it   *c03iter
 			}
@@ -831,7 +862,7 @@ func c03AddrClassifier(c *core.Ctx) {
 								}
 							}
 							if elem {
-								cands = append(cands, &cand{rs: lp.stmt, call: call, it: newC03iter(f, lp.stmt, nil)})
+								cands = append(cands, &cand{rs: lp.stmt, coll: lp.coll, call: call, it: newC03iter(f, lp.stmt, nil)})
 								break
 							}
 						}
@@ -840,7 +871,18 @@ func c03AddrClassifier(c *core.Ctx) {
 				res = analyze(c, f, flow.Config{
 					NoHavoc: true,
 					Inline:  sc.inline(),
-					Track:   func(string) bool { return false },
+					Track:   c03trackEmptiness,
+					AfterAssume: func(st *flow.State, cond ast.Expr, outcome bool) {
+						// a guard hoisted out of the loop: no servers, nothing to classify
+						if c03emptyColl(f, st, lb.Args[1]) {
+							st.Set("ev:classified", flow.True)
+						}
+						for _, cd := range cands {
+							if c03emptyColl(f, st, cd.coll) {
+								st.Set("ev:classified", flow.True)
+							}
+						}
+					},
 					OnBlock: func(st *flow.State, b *cfg.Block) {
 						for _, cd := range cands {
 							cd.it.block(st, b)
@@ -975,4 +1017,97 @@ func c03classifierValue(c *core.Ctx, f *flow.Func, store *ast.AssignStmt, lhs as
 	default:
 		c.Discharge("R-C03-5", cons, pos(c, store), sprintf("on all %d exits after the store addrIsHostName = (net.ParseIP(host) == nil)", n))
 	}
+}
+
+// c03callersStore: every same-package call site of builder assigns its first result to a
+// variable that is stored to field out on every exit of the caller that is reached with a
+// nil error (or, when the error is not tested, on every exit after the call).
+func c03callersStore(c *core.Ctx, builder *flow.Func, out *types.Var) (int, bool) {
+	fd, ok := builder.Node.(*ast.FuncDecl)
+	if !ok {
+		return 0, false
+	}
+	callee := builder.Info.Defs[fd.Name]
+	sites, okAll := 0, true
+	for _, file := range builder.Pkg.Syntax {
+		for _, d := range file.Decls {
+			cfd, ok := d.(*ast.FuncDecl)
+			if !ok || cfd.Body == nil || cfd == fd {
+				continue
+			}
+			ctop := flow.NewFunc(builder.Pkg, cfd)
+			for _, g := range c03units(ctop) {
+				ast.Inspect(g.Body, func(n ast.Node) bool {
+					if lit, isLit := n.(*ast.FuncLit); isLit && ast.Node(lit) != g.Node {
+						return false
+					}
+					as, ok := n.(*ast.AssignStmt)
+					if !ok || len(as.Rhs) != 1 {
+						return true
+					}
+					call, ok := ast.Unparen(as.Rhs[0]).(*ast.CallExpr)
+					if !ok {
+						return true
+					}
+					if fo, ok := g.Callee(call).(*types.Func); !ok || types.Object(fo.Origin()) != callee {
+						return true
+					}
+					sites++
+					if len(as.Lhs) < 1 {
+						okAll = false
+						return true
+					}
+					rid, ok := ast.Unparen(as.Lhs[0]).(*ast.Ident)
+					if !ok || rid.Name == "_" {
+						// assigned straight into the field?
+						if c03fieldOf(g, as.Lhs[0]) != out {
+							okAll = false
+						}
+						return true
+					}
+					rv := c03obj(g, rid)
+					var errID *ast.Ident
+					if len(as.Lhs) == 2 {
+						if id, ok := ast.Unparen(as.Lhs[1]).(*ast.Ident); ok && id.Name != "_" {
+							errID = id
+						}
+					}
+					res := analyze(c, g, flow.Config{
+						NoHavoc: true,
+						OnNode: func(st *flow.State, m ast.Node) {
+							if m == ast.Node(as) {
+								st.Set("ev:built", flow.True)
+								st.Set("ev:kept", flow.Unknown)
+							}
+							if s2, ok := m.(*ast.AssignStmt); ok && len(s2.Lhs) == len(s2.Rhs) {
+								for i, l := range s2.Lhs {
+									if c03fieldOf(g, l) == out {
+										if id, ok := ast.Unparen(s2.Rhs[i]).(*ast.Ident); ok && c03canon(g, c03obj(g, id)) == rv {
+											st.Set("ev:kept", flow.True)
+										}
+									}
+								}
+							}
+						},
+					})
+					if res == nil {
+						okAll = false
+						return true
+					}
+					for _, ex := range res.Exits {
+						st := ex.State
+						if ex.Kind != flow.ExitReturn || !st.Is("ev:built", flow.True) || st.Is("ev:kept", flow.True) {
+							continue
+						}
+						if errID != nil && st.Is(g.NilKey(errID), flow.False) {
+							continue
+						}
+						okAll = false
+					}
+					return true
+				})
+			}
+		}
+	}
+	return sites, sites > 0 && okAll
 }
